@@ -62,11 +62,18 @@ func (g *sgen) sizeProp(n int) string {
 }
 
 func (g *sgen) node(depth int) *snode {
-	k := g.r.Intn(14)
-	if depth <= 0 && k >= 8 {
+	k := g.r.Intn(15)
+	if depth <= 0 && k >= 8 && k < 14 {
 		k = g.r.Intn(8)
 	}
 	switch k {
+	case 14:
+		// a cross-cell struct of a predefined type: from the struct type sheet (Reward) or a message nested in the
+		// union type sheet (Target.PVP) of the base book; the column prefix is the field's own name, not the type's
+		if g.r.Intn(2) == 0 {
+			return &snode{kind: "predefStruct", name: g.vname(), sname: ".Reward"}
+		}
+		return &snode{kind: "predefStruct", name: g.vname(), sname: ".Target.PVP"}
 	default:
 		n := &snode{kind: "scalar", name: g.vname(), typ: g.scalar()}
 		if g.r.Intn(5) == 0 {
@@ -134,6 +141,11 @@ func (n *snode) columns(prefix string) []hcol {
 		return []hcol{{prefix + n.name, "map<" + n.typ + ", " + n.sname + ">"}}
 	case "incellStruct":
 		return []hcol{{prefix + n.name, "{int32 ID, string Name}" + n.sname}}
+	case "predefStruct":
+		if n.sname == ".Reward" {
+			return []hcol{{prefix + n.name + "ID", "{.Reward}uint32"}, {prefix + n.name + "Num", "int32"}}
+		}
+		return []hcol{{prefix + n.name + "BattleID", "{.Target.PVP}int32"}, {prefix + n.name + "Damage", "int64"}}
 	case "struct":
 		var cols []hcol
 		for _, s := range n.sub {
@@ -254,6 +266,11 @@ func (g *sgen) cells(n *snode, uniq int) []string {
 			return []string{""}
 		}
 		return []string{strconv.Itoa(r.Intn(100)) + ",n" + strconv.Itoa(r.Intn(10))}
+	case "predefStruct":
+		if r.Intn(5) == 0 {
+			return []string{"", ""}
+		}
+		return []string{strconv.Itoa(1 + r.Intn(500)), strconv.Itoa(r.Intn(9000))}
 	case "struct":
 		var out []string
 		for _, s := range n.sub {
@@ -349,6 +366,9 @@ func (g *sgen) sheet(name string, nfields, nrows int, last ...*snode) genSheetOu
 func baseBook() bookSpec {
 	return bookSpec{Name: "Base", Sheets: []sheetSpec{
 		{Name: "FruitType", Rows: [][]string{{"Number", "Name", "Alias"}, {"1", "FRUIT_TYPE_APPLE", "Apple"}, {"2", "FRUIT_TYPE_PEAR", "Pear"}}, Meta: map[string]string{"Mode": "MODE_ENUM_TYPE"}},
+		{Name: "Reward", Rows: [][]string{{"Name", "Type"}, {"ID", "uint32"}, {"Num", "int32"}}, Meta: map[string]string{"Mode": "MODE_STRUCT_TYPE"}},
+		{Name: "Target", Rows: [][]string{{"Name", "Alias", "Field1", "Field2"}, {"PVP", "TargetPVP", "BattleID\nint32", "Damage\nint64"}, {"PVE", "TargetPVE", "HeroID\nint32", ""}},
+			Meta: map[string]string{"Mode": "MODE_UNION_TYPE"}},
 	}}
 }
 
